@@ -529,6 +529,19 @@ fn small_scn(code: &str, r: &mut Rng) -> Scn {
 
 // ---------------- C04: one typo in a >=5-letter word ----------------
 fn p04(p: &mut ProbeReport, r: &mut Rng, budget: usize) {
+    // a large catalogue: 4200 titles whose words start with the target's first letter are added before the target
+    // (limit above the store size); the target's transposition typo must still find it
+    for code in ["none", "en"] {
+        let mut recs: Vec<(usize, String, usize)> = (0..4200).map(|i| (10 + i, format!("h{}{}x{}", (b'a' + (i % 7) as u8 + 10) as char, (b'a' + (i / 7 % 26) as u8) as char, i), 5 + i)).collect();
+        recs.push((1, "hello world".into(), 1));
+        let scn = Scn { lang: code.to_string(), recs, limit: 5000 };
+        let st = scn.build();
+        for q in ["hlelo", "helol", "ehllo"] {
+            p.eval(&format!("{}|big-catalogue|{}", code, q), true);
+            let hits = ids(&search_results(&st, q));
+            if !hits.contains(&1) { p.fail(format!("4201 records, limit 5000: the typo {:?} of `hello` does not find record 1 `hello world` ({} hits)", q, hits.len()), Case { name: "c04-big-catalogue".into(), lang: code.to_string(), stream: "probe", ops: vec![Op::Search(q.to_string())] }); break; }
+        }
+    }
     // misspellings that happen to be function words of the language: a title word one edit away from a function word
     // f (`cross` / `across`, `whale` / `while`), asked by typing f
     for code in LANGS.iter().skip(1) {
@@ -650,6 +663,26 @@ fn p05(p: &mut ProbeReport, r: &mut Rng, budget: usize) {
                     for (id, title) in search_marked(&mut st, &q) {
                         let related = big.recs.iter().filter(|e| e.0 == id).any(|e| !grams_of(&tokenize_record(&e.1, &lang)).is_disjoint(&qg));
                         if !related { p.fail(format!("after a query that overflowed the candidate cap, hit {} {:?} shares no gram with query {:?}", id, title, q), big.case("c05-nogram-cap", vec![Op::Search(w1.clone()), Op::Markers(ML.to_string(), MR.to_string()), Op::Search(q.clone())])); break; }
+                    }
+                }
+            }
+        }
+        // a hyphenated title with a short first part, asked run together with the first letter replaced
+        {
+            let part1: String = w.iter().take(3).collect();
+            let part2 = v.word(r);
+            let hy = Scn { lang: code.to_string(), recs: vec![(1, format!("{}-{} {}", part1, part2, v.word(r)), 7)], limit: 10 };
+            if !has_sentinel(&hy.recs[0].1) {
+                for first in v.letters.iter().take(8) {
+                    let q: String = std::iter::once(*first).chain(part1.chars().skip(1)).chain(part2.chars().take(1 + n % 2)).collect();
+                    let tq = tokenize_query(&q, &lang);
+                    if tq.words.is_empty() { continue; }
+                    let qg = grams_of(&tq);
+                    let mut st = hy.build();
+                    p.eval(&format!("{}|nogram-hyphen|{}|{}", code, hy.recs[0].1, q), true);
+                    for (id, title) in search_marked(&mut st, &q) {
+                        let related = hy.recs.iter().filter(|e| e.0 == id).any(|e| !grams_of(&tokenize_record(&e.1, &lang)).is_disjoint(&qg));
+                        if !related { p.fail(format!("hit {} {:?} shares no gram with query {:?}", id, title, q), hy.case("c05-nogram-hyphen", vec![Op::Markers(ML.to_string(), MR.to_string()), Op::Search(q.clone())])); break; }
                     }
                 }
             }
@@ -992,7 +1025,26 @@ fn lived_in_exhaustive(p: &mut ProbeReport, which: &str, maxlen: usize) {
     p.notes.insert("lived_in_exhaustive_sequences".into(), total);
 }
 
+/// an id is searched, destroyed, re-created with ANOTHER language, refilled with the same titles and asked the same
+/// query: each buffer is compared with a stand-alone store of that language (both directions)
+fn recreated_with_other_language(p: &mut ProbeReport) {
+    for (k, (l1, l2)) in [("en", "none"), ("none", "en"), ("de", "fr"), ("ru", "none")].iter().enumerate() {
+        let id = 950_000 + k;
+        let titles = ["Universe sandbox", "University guide", "universal remote", "Größe Straße", "running shoes"];
+        let mut ops = vec![Op::RCreate(id, l1.to_string())];
+        for (i, t) in titles.iter().enumerate() { ops.push(Op::RAdd(id, i + 1, 10 + i, t.to_string())); }
+        for q in ["running", "grosse", "university"] { ops.push(Op::RSearch(id, q.to_string())); }
+        ops.push(Op::RDestroy(id)); ops.push(Op::RCreate(id, l2.to_string()));
+        for (i, t) in titles.iter().enumerate() { ops.push(Op::RAdd(id, i + 1, 10 + i, t.to_string())); }
+        // the first query after re-creation is the last one the old store saw
+        for q in ["university", "running", "grosse", "grosse"] { ops.push(Op::RSearch(id, q.to_string())); }
+        let case = Case { name: "recreated-other-language".into(), lang: l1.to_string(), stream: "probe", ops };
+        if !reg_case_against_shadows(p, &case, &format!("relang{}", k)) { return; }
+    }
+}
+
 fn p06(p: &mut ProbeReport, r: &mut Rng, budget: usize) {
+    recreated_with_other_language(p);
     compaction_stress(p, r, "C06", if budget > 5000 { 12 } else { 2 });
     big_store_orders(p, "C06");
     lived_in_exhaustive(p, "C06", if budget > 5000 { 7 } else { 6 });
@@ -1042,6 +1094,25 @@ fn p06(p: &mut ProbeReport, r: &mut Rng, budget: usize) {
 // ---------------- C07: consistent order, independent of other records and insert order ----------------
 fn p07(p: &mut ProbeReport, r: &mut Rng, budget: usize) {
     compaction_stress(p, r, "C07", if budget > 5000 { 12 } else { 2 });
+    // a very long title word between two short ones makes the per-thread matrix grow in the middle of one search:
+    // every insertion order, each on a fresh thread, gives the same list (query words with cheap characters)
+    for (code, q, words) in [("en", "ocar", ["car", "carboxymethylcelluloses", "cart"]), ("en", "1ab", ["ab", "abcdefghijklmnopqrstuvwxyz", "abc"]), ("de", "eta", ["ta", "tausendfüßlerschuhgeschäftsinhaber", "tal"])] {
+        let base: Vec<(usize, String, usize)> = words.iter().enumerate().map(|(i, w)| (i + 1, w.to_string(), [5usize, 9, 7][i])).collect();
+        let markers = ("[".to_string(), "]".to_string());
+        let reference = fresh_thread_search(code, &base, 10, &markers, q);
+        for perm in [[0usize, 1, 2], [1, 0, 2], [1, 2, 0], [2, 1, 0], [0, 2, 1], [2, 0, 1]] {
+            let recs: Vec<(usize, String, usize)> = perm.iter().map(|i| base[*i].clone()).collect();
+            let got = fresh_thread_search(code, &recs, 10, &markers, q);
+            p.eval(&format!("{}|growth-mid-list|{}|{:?}", code, q, perm), true);
+            if got != reference { p.fail(format!("query {:?}: records inserted in the order {:?} give {:?}, in the order [1, 2, 3] {:?} (each store on a fresh thread)", q, recs.iter().map(|e| e.0).collect::<Vec<_>>(), got, reference), Scn { lang: code.to_string(), recs: recs.clone(), limit: 10 }.case("c07-growth-mid-list", vec![Op::Search(q.to_string())])); break; }
+        }
+        for pair in [[0usize, 1], [1, 0], [1, 2], [2, 1]] {
+            let recs: Vec<(usize, String, usize)> = pair.iter().map(|i| base[*i].clone()).collect();
+            let got = fresh_thread_search(code, &recs, 10, &markers, q);
+            let want: Vec<(usize, String)> = reference.iter().filter(|h| recs.iter().any(|e| e.0 == h.0)).cloned().collect();
+            if got != want { p.fail(format!("query {:?}: the two-record store {:?} gives {:?}, the three-record store orders them {:?}", q, recs.iter().map(|e| e.0).collect::<Vec<_>>(), got, want), Scn { lang: code.to_string(), recs: recs.clone(), limit: 10 }.case("c07-growth-mid-list-pair", vec![Op::Search(q.to_string())])); break; }
+        }
+    }
     big_store_orders(p, "C07");
     neighbour_locality(p, r, if budget > 5000 { 6000 } else { 700 });
     lived_in_exhaustive(p, "C07", if budget > 5000 { 7 } else { 6 });
@@ -1654,6 +1725,16 @@ fn p12(p: &mut ProbeReport, r: &mut Rng, budget: usize) {
 
 // ---------------- C13: whole title / two words in either order ----------------
 fn p13(p: &mut ProbeReport, r: &mut Rng, budget: usize) {
+    // 1100 records with the same two-word title, limit 1100: the full title and both word orders return every record
+    {
+        let recs: Vec<(usize, String, usize)> = (0..1100).map(|i| (i + 1, "Cotton Shirt".to_string(), 10 + i)).collect();
+        let st = Scn { lang: "none".into(), recs, limit: 1100 }.build();
+        for q in ["Cotton Shirt", "Shirt Cotton ", "cotton shirt "] {
+            p.eval(&format!("same-title|{}", q), true);
+            let hits = ids(&search_results(&st, q));
+            if let Some(missing) = (1..=1100usize).find(|i| !hits.contains(i)) { p.fail(format!("1100 records titled `Cotton Shirt`, limit 1100: query {:?} does not return record {} ({} results)", q, missing, hits.len()), Case { name: "c13-same-title".into(), lang: "none".into(), stream: "probe", ops: vec![Op::Search(q.to_string())] }); break; }
+        }
+    }
     // through the top-level API: a store that at first holds more records than its limit is asked for a title, the
     // limit is raised to the store's size (the property now applies), and the same query is sent again
     for (k, code) in LANGS.iter().cycle().take(LANGS.len() * 3).enumerate() {
@@ -1953,6 +2034,23 @@ fn check_prepare(p: &mut ProbeReport, st: &Store, lang: &core::Lang, code: &str,
 }
 
 fn p18(p: &mut ProbeReport, r: &mut Rng, budget: usize) {
+    // one index asked 66 000 times (a wrapping per-query stamp would come round): a record touched once at the start
+    // and never again must not be a candidate of a query it shares nothing with
+    {
+        let lang = make_lang("none");
+        let recs: Vec<(usize, String, usize)> = vec![(1, "alpine hiking boots".into(), 3), (2, "wool socks".into(), 2), (3, "water bottle".into(), 1)];
+        let st = Scn { lang: "none".into(), recs: recs.clone(), limit: 10 }.build();
+        let mut hist: Vec<Op> = vec![Op::New];
+        for (id, t, rt) in &recs { hist.push(Op::Add(*id, *rt, t.clone())); }
+        let q1 = tokenize_query("alp", &lang);
+        let _ = st.index.borrow_mut().prepare(&q1.to_ref(), 1);
+        let qw = tokenize_query("wo", &lang);
+        for _ in 0..65_528 { let _ = st.index.borrow_mut().prepare(&qw.to_ref(), 1); }
+        hist.push(Op::Prepare("alp".into(), 1));
+        // the queries number 65 530 … 65 541 after the one that touched record 1 (none of them touches it)
+        for _ in 0..12 { if !check_prepare(p, &st, &lang, "none", &recs, "w", 1, &hist) { return; } }
+        if !check_prepare(p, &st, &lang, "none", &recs, "alpine", 1, &hist) { return; }
+    }
     // many more sharing records than the cap keeps (22 … 70 for sizes 1 and 2), their shared-gram counts all different
     // from their neighbours' and in random order: whatever the bounded selection keeps between compactions, nothing
     // omitted may share more grams than something listed
@@ -2189,6 +2287,18 @@ fn p20(p: &mut ProbeReport, r: &mut Rng, budget: usize) {
             }
         }
         p.notes.insert("exhaustive_sequences".into(), total);
+    }
+    // two ids created out of numeric order survive while forty other ids come and go (a registry that compacts or
+    // re-packs its slots after many destroys must still route each id to its own store)
+    {
+        let (hi, lo) = (940_050usize, 940_007usize);
+        let mut ops: Vec<Op> = vec![Op::RCreate(hi, "en".into()), Op::RCreate(lo, "none".into()),
+            Op::RAdd(hi, 3, 30, "Hammer drill".into()), Op::RAdd(hi, 4, 20, "Claw hammer".into()), Op::RAdd(lo, 8, 10, "garden hose".into()),
+            Op::RMarkers(hi, "<".into(), ">".into()), Op::RLimit(lo, 1)];
+        for k in 0..40 { let id = 940_100 + (k * 7) % 40; ops.push(Op::RCreate(id, "none".into())); ops.push(Op::RAdd(id, 1, 1, "tape".into())); if k % 3 == 0 { ops.push(Op::RSearch(id, "ta".into())); } ops.push(Op::RDestroy(id)); if k % 8 == 7 { ops.push(Op::RSearch(hi, "hammer".into())); ops.push(Op::RSearch(lo, "hose".into())); } }
+        ops.push(Op::RSearch(hi, "hammer".into())); ops.push(Op::RSearch(lo, "hose".into())); ops.push(Op::RSearch(hi, "hose".into()));
+        let case = Case { name: "c20-many-destroys".into(), lang: "none".into(), stream: "probe", ops };
+        let _ = reg_case_against_shadows(p, &case, "destroys");
     }
     // six live ids: one is searched, then changed (add / limit / markers), then the five others are searched in turn;
     // every buffer is compared with its own stand-alone store after every call (a bounded pool of "warm" buffers that
